@@ -209,7 +209,7 @@ Plan gen_plan(int prop, uint64_t runseed) {
     std::vector<uint16_t> kinds[FAM__COUNT];
     for (int k = 0; k < KIND__COUNT; k++) kinds[META[k].fam].push_back((uint16_t)k);
     bool streams_only = prop == P_C16;
-    unsigned corrupt_rate = prop == P_C18 ? 3 + r.below(6) : 0;          // one in N eligible ops
+    unsigned corrupt_rate = prop == P_C18 ? 3 + r.below(6) : (prop == P_C19 && r.below(3) == 0) ? 4 + r.below(8) : 0;          // one in N eligible ops
     unsigned alloc_rate = prop == P_C19 ? 3 + r.below(20) : 0;
     uint8_t type_mask = (uint8_t)(1 + r.below(15));                       // element types enabled in this run
     // prologue: a few objects to work with
